@@ -22,41 +22,44 @@ Acyclic(deps, M) == \A m \in M : m \notin TransOf(deps, m)
 (* The edge a -> b closes a cycle in an acyclic graph iff a = b or a is reachable from b. *)
 ClosesCycle(deps, a, b) == a = b \/ a \in TransOf(deps, b)
 
+TransFn(deps, M) == [m \in M |-> TransOf(deps, m)]   \* the closure as a function (computed once, looked up often)
+
+NeededT(tr, T) == T \cup UNION {tr[t] : t \in T}
 Needed(deps, T) == T \cup UNION {TransOf(deps, t) : t \in T}
 
 DependantsOf(deps, M, m) == {x \in M : m \in TransOf(deps, x)}
 
 SeqSet(s) == {s[i] : i \in 1..Len(s)}
 NoDup(s)  == \A i, j \in 1..Len(s) : i # j => s[i] # s[j]
-PosOf(s, x) == CHOOSE i \in 1..Len(s) : s[i] = x
 
 (***************************************************************************)
 (* The property, declaratively.  `order` is the order in which init        *)
 (* functions ran for targets T, observed on the modules H that have an     *)
-(* init function (H = all modules: the full initialisation order).         *)
+(* init function (H = all modules: the full initialisation order); tr is   *)
+(* the transitive closure TransFn(deps, Mod).                              *)
 (*   InitOnce          every module at most once                           *)
 (*   InitOnlyNeeded    nothing but needed modules                          *)
 (*   InitAllNeeded     every needed module                                 *)
 (*   InitAfterDeps     each module after all of Trans[m]                   *)
 (***************************************************************************)
-InitOnce(order)                     == NoDup(order)
-InitOnlyNeeded(deps, T, H, order)   == SeqSet(order) \subseteq (Needed(deps, T) \cap H)
-InitAllNeeded(deps, T, H, order)    == (Needed(deps, T) \cap H) \subseteq SeqSet(order)
-InitAfterDeps(deps, H, order) ==
+InitOnce(order)                 == NoDup(order)
+InitOnlyNeeded(tr, T, H, order) == SeqSet(order) \subseteq (NeededT(tr, T) \cap H)
+InitAllNeeded(tr, T, H, order)  == (NeededT(tr, T) \cap H) \subseteq SeqSet(order)
+InitAfterDeps(tr, H, order) ==
     \A i \in 1..Len(order) :
-        \A d \in TransOf(deps, order[i]) \cap H : \E j \in 1..(i-1) : order[j] = d
+        \A d \in tr[order[i]] \cap H : \E j \in 1..(i-1) : order[j] = d
 
-AdmissibleInit(deps, T, H, order) ==
+AdmissibleInit(tr, T, H, order) ==
     /\ InitOnce(order)
-    /\ InitOnlyNeeded(deps, T, H, order)
-    /\ InitAllNeeded(deps, T, H, order)
-    /\ InitAfterDeps(deps, H, order)
+    /\ InitOnlyNeeded(tr, T, H, order)
+    /\ InitAllNeeded(tr, T, H, order)
+    /\ InitAfterDeps(tr, H, order)
 
 (* An initialisation that was aborted by a failing init function: admissible so far. *)
-AdmissibleInitPrefix(deps, T, H, order) ==
+AdmissibleInitPrefix(tr, T, H, order) ==
     /\ InitOnce(order)
-    /\ InitOnlyNeeded(deps, T, H, order)
-    /\ InitAfterDeps(deps, H, order)
+    /\ InitOnlyNeeded(tr, T, H, order)
+    /\ InitAfterDeps(tr, H, order)
 
 (***************************************************************************)
 (* Run-time ordering clauses, as predicates over the observable state of   *)
@@ -76,14 +79,15 @@ SvcNext(s) == CASE s = "New"      -> {"Starting", "Terminated"}
 RECURSIVE SvcReach(_, _)
 SvcReach(from, to) == from = to \/ \E n \in SvcNext(from) : SvcReach(n, to)
 
-TransSvc(deps, S, m)      == TransOf(deps, m) \cap S
-DependantsSvc(deps, S, m) == DependantsOf(deps, S, m)
+(* tr = TransFn(deps, Mod), the transitive closure as a function *)
+TransSvc(tr, S, m)      == tr[m] \cap S
+DependantsSvc(tr, S, m) == {x \in S : m \in tr[x]}
 
 (* S[m] is started (W[m] calls S[m].StartAsync) only when every dependency's service has      *)
 (* started successfully, its wrapper has reached Running, and it was not told to stop; a      *)
 (* dependency whose run function only returns when told to (blocks[d]) is literally Running.  *)
-StartCond(deps, S, m, wst, sst, startedOK, stopAsked, blocks) ==
-    \A d \in TransSvc(deps, S, m) :
+StartCond(tr, S, m, wst, sst, startedOK, stopAsked, blocks) ==
+    \A d \in TransSvc(tr, S, m) :
         /\ startedOK[d]
         /\ ~stopAsked[d]
         /\ wst[d] \notin {"New", "Starting"}
@@ -93,32 +97,32 @@ StartCond(deps, S, m, wst, sst, startedOK, stopAsked, blocks) ==
 (* S[m] is told to stop (W[m] calls S[m].StopAsync) only when no dependant's service is       *)
 (* active; on the regular path (W[m] is Stopping) every dependant's wrapper is terminal, on   *)
 (* the interrupted-start-up path (W[m] still Starting) no dependant's service was ever started.*)
-StopCondW(deps, S, m, wst, startAsked) ==
-    \A x \in DependantsSvc(deps, S, m) :
+StopCondW(tr, S, m, wst, startAsked) ==
+    \A x \in DependantsSvc(tr, S, m) :
         /\ wst[m] = "Stopping" => wst[x] \in Terminal
         /\ wst[m] = "Starting" => ~startAsked[x]
         /\ wst[m] \in {"Starting", "Stopping"}
-StopCondS(deps, S, m, sst) ==
-    \A x \in DependantsSvc(deps, S, m) : sst[x] \notin Active
+StopCondS(tr, S, m, sst) ==
+    \A x \in DependantsSvc(tr, S, m) : sst[x] \notin Active
 
 (* State form of the same clause: while a module's service is active, none of its             *)
 (* dependencies' services has been told to stop.                                              *)
-ActiveKeepsDeps(deps, S, sst, stopAsked) ==
-    \A m \in S : sst[m] \in Active => \A d \in TransSvc(deps, S, m) : ~stopAsked[d]
+ActiveKeepsDeps(tr, S, sst, stopAsked) ==
+    \A m \in S : sst[m] \in Active => \A d \in TransSvc(tr, S, m) : ~stopAsked[d]
 
 (* A dependency that failed without its service ever running: dependants' services are never  *)
 (* started and their wrappers never run.                                                      *)
 FailedToStart(d, wst, sRan) == wst[d] = "Failed" /\ ~sRan[d]
-FailurePropagatesSafe(deps, S, wst, sRan, startAsked, wStarted) ==
+FailurePropagatesSafe(tr, S, wst, sRan, startAsked, wStarted) ==
     \A d \in S : FailedToStart(d, wst, sRan) =>
-        \A x \in DependantsSvc(deps, S, d) :
+        \A x \in DependantsSvc(tr, S, d) :
             /\ ~startAsked[x]
             /\ wst[x] \in {"New", "Starting", "Failed", "Terminated"}
             /\ wst[x] = "Terminated" => ~wStarted[x]
 (* ... and, once everything is quiescent, every started dependant has failed.                 *)
-FailurePropagatesDone(deps, S, wst, sRan, wStarted) ==
+FailurePropagatesDone(tr, S, wst, sRan, wStarted) ==
     \A d \in S : FailedToStart(d, wst, sRan) =>
-        \A x \in DependantsSvc(deps, S, d) : wStarted[x] => wst[x] = "Failed"
+        \A x \in DependantsSvc(tr, S, d) : wStarted[x] => wst[x] = "Failed"
 
 AllStopped(S, wst, sst) ==
     \A m \in S : wst[m] \in Terminal /\ sst[m] \in {"New", "Terminated", "Failed"}
